@@ -213,6 +213,9 @@ func loadSrc(dir string) (*packages.Package, error) {
 
 // probeDir is what registry.pkgInDir observes: the name of the package in directory dir.
 func probeDir(dir string) (string, bool) {
+	if fastOn {
+		return fastProbeFn(dir)
+	}
 	pkgs, err := packages.Load(&packages.Config{Mode: packages.NeedName, Dir: dir})
 	if err != nil || len(pkgs) != 1 || len(pkgs[0].Errors) != 0 {
 		return "", false
